@@ -123,6 +123,15 @@ def vtables_complete(R, P):
     R.require(n >= 3, "only %d logger vtables with a stored level found (confirmed: owned pipeline, unowned pipeline, no-alloc)" % n)
 
 
+def _assignment_of(f, ev):
+    for b in f.blocks.values():
+        for el in b.elems:
+            for n in f.walk(el):
+                if n["k"] == "bin" and n["op"] in ("=",) and f.d(n["a"][0]) is ev.node:
+                    return n
+    return None
+
+
 def analyse(ctx, replace=None, only=None):
     R = ctx.R
     units = [u for u in library_units(ctx.ex.repo) if "external" not in u]
@@ -405,13 +414,44 @@ def background(R, ch):
                     srcs[v["n"]] = "finished"
     R.require(set(srcs.values()) == {"count", "finished"}, "background thread: snapshot locals of count/finished not found (%s)" % srcs)
 
+    def flag_of(rhs):
+        """(snapshot name, negated) when rhs is a snapshot local or its negation (through casts)"""
+        n_, neg = f.d(rhs), False
+        for _ in range(6):
+            if n_ is None:
+                return None
+            if n_["k"] == "cast":
+                n_ = f.d(n_["a"][0])
+            elif n_["k"] == "un" and n_["op"] == "!":
+                neg = not neg
+                n_ = f.d(n_["a"][0])
+            else:
+                break
+        if n_ is not None and n_["k"] == "var" and n_["n"] in srcs:
+            return srcs[n_["n"]], neg
+        return None
+
     def tr(e, s):
         if e.kind == "call" and e.node.get("callee") == "aws_mutex_lock":
-            return frozenset()
+            return frozenset(x for x in s if isinstance(x, tuple) and x[0] == "const")
         from sa.cfg import assigned_vars
         for v in assigned_vars(f, e):
             if v in srcs:
-                return frozenset(x for x in s if x != srcs[v])
+                # a fresh snapshot: what was learnt about the old one (also through flags computed from it) is gone
+                return frozenset(x for x in s if x != srcs[v] and not (isinstance(x, tuple) and x[0] == "flag" and x[2] == srcs[v]))
+            # a loop flag computed from a snapshot (`keep_running = !finished`): a later test of the flag is a test of the snapshot
+            rhs = None
+            if e.kind == "decl":
+                rhs = next((vv.get("init") for vv in e.node["vars"] if vv["n"] == v), None)
+            else:
+                a_ = _assignment_of(f, e)
+                rhs = a_["a"][1] if a_ is not None and a_["op"] == "=" else None
+            s = frozenset(x for x in s if not (isinstance(x, tuple) and x[1] == v))
+            fl = flag_of(rhs) if rhs is not None else None
+            if fl:
+                s = s | {("flag", v, fl[0], fl[1])}
+            elif rhs is not None and f.is_const(RU.uncast(f, rhs)) is not None:
+                s = s | {("const", v, bool(f.is_const(RU.uncast(f, rhs))), None)}
         return s
 
     def edge(cond, pol, s, fn, b):
@@ -424,13 +464,25 @@ def background(R, ch):
             return s | {"count"}
         if l["k"] == "var" and srcs.get(l["n"]) == "finished" and r is None and op == "!=":
             return s | {"finished"}
+        if l["k"] == "var" and r is None:
+            for x in s:
+                if isinstance(x, tuple) and x[0] == "const" and x[1] == l["n"] and ((op == "!=") != x[2]):
+                    return []  # the flag still holds the constant it was set to: this branch is not taken
+            out = s
+            for x in s:
+                if isinstance(x, tuple) and x[0] == "flag" and x[1] == l["n"] and x[2] == "finished" and ((op == "!=") != x[3]):
+                    out = out | {"finished"}
+            if l.get("sc") == "local" and l["n"] not in srcs:
+                # the branch taken fixes the flag's value until it is assigned again
+                out = frozenset(x for x in out if not (isinstance(x, tuple) and x[0] == "const" and x[1] == l["n"])) | {("const", l["n"], op == "!=", None)}
+            return out
         return s
 
     ts = Typestate(f, frozenset(), tr, edge)
     bad = [s for s in ts.exit_states if not ({"count", "finished"} <= set(s))]
     R.check(ts.exit_states and not bad, "EXIT", "thread-exits-only-when-empty-and-finished", "%s()" % f.name,
             "every path to the thread's return has seen count == 0 and finished since its last lock",
-            "the background thread can return having observed only %s: accepted lines could be dropped at clean-up" % [sorted(x) for x in bad])
+            "the background thread can return having observed only %s: accepted lines could be dropped at clean-up" % [sorted(y for y in x if isinstance(y, str)) for x in bad])
 
     # SHUTDOWN-ORDER
     d = ch["s_background_channel_clean_up"]
